@@ -528,11 +528,17 @@ def fresh_checksums(ctx: Ctx, rule: str) -> None:
         for s_ in ast.walk(f.node):
             if isinstance(s_, ast.Assign) and len(s_.targets) == 1:
                 defs.setdefault(ast.unparse(s_.targets[0]), []).append(ast.unparse(s_.value))
-        ok = sorted(defs.get("local_hash", [])) == sorted(["crypto.hash_file(cache_path, 1048576, 'md5')", "''"])
+        def fresh(var, path_args):
+            # every definition is either the missing-file marker '' or a hash_file call over the named file (block size / algorithm free)
+            vals = [s_.value for s_ in ast.walk(f.node) if isinstance(s_, ast.Assign) and len(s_.targets) == 1 and ast.unparse(s_.targets[0]) == var]
+            hashed = [v for v in vals if isinstance(v, ast.Call) and call_name(v) == "hash_file" and [ast.unparse(a) for a in v.args[:len(path_args)]] == path_args]
+            empty = [v for v in vals if isinstance(v, ast.Constant) and v.value == ""]
+            return len(hashed) == 1 and len(hashed) + len(empty) == len(vals)
+        ok = fresh("local_hash", ["cache_path"])
         if name == "compare_local":
-            ok = ok and sorted(defs.get("remote_hash", [])) == sorted(["crypto.hash_file(pool_path, 1048576, 'md5')", "''"])
+            ok = ok and fresh("remote_hash", ["pool_path"])
         else:
-            ok = ok and defs.get("remote_hash") == ["ops.hash_file(session, path, '1M', 'md5')"]
+            ok = ok and fresh("remote_hash", ["session", "path"])
         rets = [r for r in ast.walk(f.node) if isinstance(r, ast.Return)]
         ok = ok and len(rets) == 1 and ast.unparse(rets[0].value) == "local_hash == remote_hash"
         ctx.record(rule, "PROV", f.ref, f"{name}: both checksums are computed from the files when asked (missing file = ''), result = equality", ok, defs,
